@@ -284,11 +284,28 @@ class ElemKind:
 ITEM_SORT = z3.DeclareSort('Item')
 
 
+ITEM_NATIVE: dict = {}     # names of item constants standing for concrete native values
+
+
+def native_item(value):
+    """A constant of the opaque item sort standing for a concrete native value."""
+    name = f'native!{type(value).__name__}!{value!r}'
+    ITEM_NATIVE[name] = value
+    return z3.Const(name, ITEM_SORT)
+
+
 class VItem(Val):
     """An opaque XDM item (uninterpreted)."""
 
     def __init__(self, t):
         self.t = t
+
+    @property
+    def conc(self):
+        t = z3.simplify(self.t)
+        if z3.is_const(t) and str(t) in ITEM_NATIVE:
+            return ITEM_NATIVE[str(t)]
+        return NOTCONC
 
     def rep(self):
         raise OutOfSubset('isinstance on an opaque item')
